@@ -8,7 +8,9 @@
 (*   "sigs"    a pre-computed signature file with params ks                *)
 (*   "db"      the reference database's signatures with params ks          *)
 (*   "square"  the queries themselves (dist --square)                      *)
-(* explicit is None, Some(K) (both -k and -p) or <<"partial">> (only one). *)
+(* explicit is None, Some(K) (both -k and -p), <<"partial">> (only one) or  *)
+(* <<"invalid">> (both given but not a legal parameter set: k outside 5..32,*)
+(* which is refused - never adjusted to the nearest legal value).          *)
 (***************************************************************************)
 EXTENDS Base
 
@@ -16,13 +18,14 @@ CONSTANTS Params, DEFAULT      \* Params: set of parameter tokens; DEFAULT \in P
 Err == [ok |-> FALSE]
 Use(K) == [ok |-> TRUE, ks |-> K]
 Partial == <<"partial">>
+Invalid == <<"invalid">>
 
 Fixed(src) == IF src.kind \in {"sigs", "db"} THEN {src.ks} ELSE {}
 
 \* ---- definition: every parameter set that is pinned down (by a signature source or by explicit options) must be the
 \* same one; it is then used for everything that still has to be computed; DEFAULT if nothing pins one down
 DistDef(explicit, q, r) ==
-  IF explicit = Partial THEN Err
+  IF explicit \in {Partial, Invalid} THEN Err
   ELSE LET pinned == Fixed(q) \cup Fixed(r) \cup (IF explicit = None THEN {} ELSE {The(explicit)}) IN
        IF Cardinality(pinned) > 1 THEN Err
        ELSE IF pinned = {} THEN Use(DEFAULT) ELSE Use(CHOOSE K \in pinned : TRUE)
@@ -33,7 +36,7 @@ QueryDef(q, db) == IF q.kind = "sigs" /\ q.ks # db.ks THEN Err ELSE Use(db.ks)
 \* ---- the decision procedure of `gambit dist` as written (if-chain), for the equivalence check
 DistAlgo(explicit, q, r) ==
   LET qs == q.kind = "sigs"  rs == r.kind \in {"sigs", "db"} IN
-  IF explicit = Partial THEN Err
+  IF explicit \in {Partial, Invalid} THEN Err
   ELSE IF explicit = None
        THEN IF qs /\ rs /\ q.ks # r.ks THEN Err
             ELSE IF qs THEN Use(q.ks) ELSE IF rs THEN Use(r.ks) ELSE Use(DEFAULT)
@@ -43,7 +46,7 @@ DistAlgo(explicit, q, r) ==
 
 QSources == [kind : {"files"}, ks : {DEFAULT}] \cup [kind : {"sigs"}, ks : Params]
 RSources == [kind : {"files", "square"}, ks : {DEFAULT}] \cup [kind : {"sigs", "db"}, ks : Params]
-Explicits == {None, Partial} \cup { Some(K) : K \in Params }
+Explicits == {None, Partial, Invalid} \cup { Some(K) : K \in Params }
 
 \* ---- a history of commands: what was compared with what, what was written
 VARIABLES compared,   \* set of <<ksQuery, ksReference>> of every comparison performed so far
